@@ -161,6 +161,30 @@ func factsC18() {
 		return true
 	})
 	addStrList("c18UsedAuthReads", usedReads, "backends.go BuildUsedAuthBackends: AuthBackendName reads")
+	addStrList("c18UsedAuthRanges", c18Ranges(bks, ub), "backends.go BuildUsedAuthBackends: what the loops range over (all current backends, not the changed ones)")
+
+	// ---- partial sync: what is dropped before the dirty ingresses are parsed again, and which hosts and
+	// backends get their annotations (authentication included) rebuilt
+	sp := methodDecl(ing, "converter", "syncPartial")
+	addStrList("c18SyncPartialRemovals", c18Calls(ing, sp, []string{"RemoveAll", "RemoveAuthBackendByTarget"}), "ingress.go syncPartial: removals of dirty objects, source order")
+	pa := methodDecl(ing, "converter", "partialSyncAnnotations")
+	addStrList("c18PartialSyncRanges", c18Ranges(ing, pa), "ingress.go partialSyncAnnotations: what the loops range over")
+	var psync []string
+	for _, c := range methodCalls(ing, "converter", "partialSyncAnnotations") {
+		if c == "c.updater.UpdateHostConfig" || c == "c.updater.UpdateBackendConfig" {
+			psync = append(psync, c)
+		}
+	}
+	addStrList("c18PartialSyncOrder", psync, "ingress.go partialSyncAnnotations: hosts are updated before backends")
+	rt := methodDecl("pkg/haproxy/types/frontend.go", "Frontend", "RemoveAuthBackendByTarget")
+	var rtConds []string
+	ast.Inspect(rt.Body, func(n ast.Node) bool {
+		if i, ok := n.(*ast.IfStmt); ok {
+			rtConds = append(rtConds, c18Src("pkg/haproxy/types/frontend.go", i.Cond))
+		}
+		return true
+	})
+	addStrList("c18RemoveByTargetConds", rtConds, "frontend.go RemoveAuthBackendByTarget: a bind is kept unless its target is listed")
 
 	// ---- AcquireAuthBackendName
 	fr := "pkg/haproxy/types/frontend.go"
@@ -232,6 +256,18 @@ func c18Calls(rel string, fd *ast.FuncDecl, names []string) []string {
 			if s, ok := c.Fun.(*ast.SelectorExpr); ok && has(names, s.Sel.Name) {
 				res = append(res, c18Src(rel, c))
 			}
+		}
+		return true
+	})
+	return res
+}
+
+// c18Ranges: the expressions the range statements of fd iterate, source order
+func c18Ranges(rel string, fd *ast.FuncDecl) []string {
+	var res []string
+	ast.Inspect(fd.Body, func(n ast.Node) bool {
+		if r, ok := n.(*ast.RangeStmt); ok {
+			res = append(res, c18Src(rel, r.X))
 		}
 		return true
 	})
